@@ -164,7 +164,7 @@ def mod_text(gt_ok=True):
 
 @lru_cache(None)
 def mult():
-    return st.one_of(st.just(1), st.just(1), st.just(1), st.integers(2, 9))
+    return st.one_of(st.just(1), st.just(1), st.just(1), st.integers(2, 9), st.integers(2, 9), st.integers(10, 13))  # also two digits
 
 
 def mod(gt_ok=True, mults=True, text=None):
@@ -249,7 +249,7 @@ def pep_model(alphabet=AA26, min_len=1, max_len=30, kinds=None, mod_strategy=Non
                            st.sampled_from([1, 1, 1] + list(range(2, static_max_mult + 1)))).map(list)
     static_mods = st.lists(one_static, min_size=1, max_size=2)
     iso = st.lists(st.sampled_from(isotopes or ISOTOPE_LABELS), min_size=1, max_size=2, unique=True)
-    chg = st.one_of(st.integers(1, 9), st.integers(-5, -1))
+    chg = st.one_of(st.integers(1, 9), st.integers(1, 9), st.integers(-5, -1), st.integers(-5, -1), st.integers(10, 15), st.integers(-12, -10))
     add = adduct_text()
     seq_s = sequence(alphabet, min_len, max_len)
     term_targets = st.sampled_from(['N-Term', 'C-Term'])
